@@ -123,6 +123,25 @@ impl Prop for PNum {
                 .map(|p| String::from_utf8_lossy(p).strip_prefix("R/f").and_then(|x| x.parse::<u64>().ok()).unwrap_or(0))
                 .collect();
             idx.sort();
+            // the same test with the starting point given twice: every selected file is selected both times (what one
+            // entry was measured as says nothing about the next one, even if it is the same file)
+            if !is_time(&prim) {
+                let mut a2 = args.clone();
+                a2.insert(0, "R".into());
+                let r2 = run_find_inproc(&dir, &a2, None, &errf);
+                if r2.panicked {
+                    return json!({"panic": true, "args": a2});
+                }
+                let mut idx2: Vec<u64> = split_nul(&r2.out)
+                    .iter()
+                    .map(|p| String::from_utf8_lossy(p).strip_prefix("R/f").and_then(|x| x.parse::<u64>().ok()).unwrap_or(0))
+                    .collect();
+                idx2.sort();
+                let doubled: Vec<u64> = idx.iter().flat_map(|k| [*k, *k]).collect();
+                if idx2 != doubled {
+                    o["twice_differs"] = json!(form);
+                }
+            }
             o[form] = json!(idx);
         }
         o
@@ -194,7 +213,7 @@ impl Prop for PNum {
     }
 
     fn same(&self, exp: &Value, obs: &Value) -> bool {
-        obs.get("panic").is_none() && obs.get("exit").is_none() && ["eq", "gt", "lt"].iter().all(|f| arr(&exp[*f]) == arr(&obs[*f]))
+        obs.get("panic").is_none() && obs.get("exit").is_none() && obs.get("twice_differs").is_none() && ["eq", "gt", "lt"].iter().all(|f| arr(&exp[*f]) == arr(&obs[*f]))
     }
 
     fn corrupt(&self, obs: &Value) -> Option<Value> {
